@@ -22,6 +22,8 @@ package types
 //@ func (k StakingKeeper) GetDelegatorBonded
 //@ trusted
 //@ ensures err == nil ==> result == delegatorBonded(Other, delegator)
+// (the SDK staking keeper never returns an error registered by the restake module)
+//@ ensures err != ErrUnableToUndelegate
 //@ func (k BankKeeper) SendCoinsFromAccountToModule
 //@ trusted
 //@ modifies Bank
@@ -41,9 +43,13 @@ package types
 //@ func (k StakingKeeper) GetDelegation
 //@ trusted
 //@ ensures err == nil ==> result == delegationOf(Other, delAddr, valAddr)
+// (the SDK staking keeper never returns an error registered by the restake module)
+//@ ensures err != ErrUnableToUndelegate
 //@ func (k StakingKeeper) GetValidator
 //@ trusted
 //@ ensures err == nil ==> result == validatorOf(Other, addr)
+// (the SDK staking keeper never returns an error registered by the restake module)
+//@ ensures err != ErrUnableToUndelegate
 //@ spec modAcc(o OtherState, name Str) sdk.ModuleAccountI uninterpreted
 //@ func (k AccountKeeper) GetModuleAccount
 //@ trusted
